@@ -1,11 +1,11 @@
 /-
-C18 — `ArenaBitSet`, round 2: the reallocating branches of `_resize`, `_append`, `copy_from`, then `release`
-and a whole-sequence refinement theorem (`bitset_refines_bools`).
+C18 — `ArenaBitSet`, rounds 2/3: the reallocating branches of `_resize`, `_append`, `copy_from`, then `release`
+and a whole-sequence refinement theorem (`bitset_refines_bools`), for EVERY call and EVERY arena state.
 
 The arena is treated as an oracle: the only facts used about `Arena.allocReusable` are its result shape
-(`allocReusable_shape`: a slot size, or exactly the request when `request + 24 ≤ mallocMax`) and
-`Vector.allocReusable_spec` (`request ≤ allocated`).  The explicit oracle hypothesis is `a.mallocMax < 2^29`:
-no allocation of `2^29` bytes or more succeeds, so `uint32_t(allocated * 8)` does not wrap.
+(`allocReusable_shape`: a slot size, or exactly the request) and `Vector.allocReusable_spec`
+(`request ≤ allocated`).  The model follows the repaired code (fixes/C18-8.patch): the capacity is clamped to
+`0xFFFFFFC0` and sizes above it are refused, so no hypothesis on the allocator or on the requested size is needed.
 -/
 import AsmjitVerif.Lemmas.C18Bits
 import AsmjitVerif.Lemmas.C18Vector
@@ -44,121 +44,117 @@ theorem allocReusable_shape {a a' : Arena.State} {size allocated : Nat} {p : Loc
 /-- what `_resize` / `copy_from` need from a successful allocation of `minCap / 8` bytes -/
 theorem allocReusable_bits {a a' : Arena.State} {minCap allocated : Nat} {p : Loc}
     (h : allocReusable a (minCap / 8) = (a', some p, allocated))
-    (h64 : minCap % 64 = 0) (hpos : 0 < minCap) (hle : minCap ≤ u64) (hmm : a.mallocMax < 2 ^ 29) :
-    allocated % 8 = 0 ∧ minCap ≤ allocated * 8 ∧ allocated * 8 < u32 := by
+    (h64 : minCap % 64 = 0) (hpos : 0 < minCap) (hle : minCap ≤ u64) :
+    allocated % 8 = 0 ∧ minCap ≤ allocated * 8 := by
   have hs := Vector.allocReusable_spec h (by omega) (by unfold u64 at *; omega)
-  rcases allocReusable_shape h with ⟨hi, he⟩ | ⟨he, hm⟩
-  · obtain ⟨_, h16, _, hpow⟩ := slot_facts _ hi
-    have hk8 : 2 ^ slotIndex (minCap / 8) ≤ 2 ^ 7 := Nat.pow_le_pow_right (by decide) (by omega)
-    rw [← he] at h16 hpow
-    refine ⟨by omega, by omega, ?_⟩
-    unfold u32; omega
-  · refine ⟨by omega, by omega, ?_⟩
-    unfold u32; omega
+  rcases allocReusable_shape h with ⟨hi, he⟩ | ⟨he, _⟩
+  · obtain ⟨_, h16, _, _⟩ := slot_facts _ hi
+    rw [← he] at h16
+    exact ⟨by omega, by omega⟩
+  · exact ⟨by omega, by omega⟩
 
 /-! ### `realloc`
 
-KERNEL OBSTACLE.  `Model/Bits.lean` defines `realloc a b m k := match allocReusable a (m / 8) with …`.  Exposing that
-body (by `unfold`, `simp only [realloc]`, `delta`, `rfl`, even generating `realloc.eq_1`) makes the kernel compare
-`realloc a b m k` with a matcher application; matchers carry the `abbrev` hint and are unfolded first, and the
-kernel then puts the discriminant `allocReusable a (m / 8)` into weak head normal form, which runs into
-`slotIndex`'s `(size + 2^64 - 1) % 2^64` on an open term (unary arithmetic on `2^64`): "deep recursion" after
-minutes.  (`Lemmas/C18Vector.lean` hit the same wall for `reserveWithByteSize`.)  Every way of ordering the
-unfolding ends with "matcher versus something else", so the unfolding equation below cannot be checked against the
-model as it stands; it is therefore an explicit hypothesis `ReallocUnfolds` of the theorems of this file.  It holds
-by definition, and becomes `fun _ _ _ _ => rfl` as soon as the model is written as
-`def realloc a b m k := reallocWith (allocReusable a (m / 8)) b k` (a one-line refactoring: then both sides are
-ordinary definitions and the kernel unfolds `realloc` first). -/
+`Model/Bits.lean` defines `realloc a b m k := reallocWith (allocReusable a (m / 8)) b k` precisely so that proofs can
+unfold it without making the kernel evaluate the allocator (a `match allocReusable …` in the body of `realloc` made
+the kernel normalise `slotIndex`'s `(size + 2^64 - 1) % 2^64` on an open term: "deep recursion"). -/
 
-/-- "`realloc` is its defining equation" (see KERNEL OBSTACLE above) -/
-def ReallocUnfolds : Prop :=
-  ∀ (a : Arena.State) (b : BitSet) (m k : Nat), realloc a b m k = reallocWith (allocReusable a (m / 8)) b k
+theorem realloc_unfolds (a : Arena.State) (b : BitSet) (m k : Nat) :
+    realloc a b m k = reallocWith (allocReusable a (m / 8)) b k := rfl
 
-/-- since `Model/Bits.lean` defines `realloc` through `reallocWith`, the hypothesis holds by definition -/
-theorem realloc_unfolds : ReallocUnfolds := fun _ _ _ _ => rfl
-
-/-- on concrete arguments the kernel can evaluate both sides, and they agree -/
-example : (realloc (Arena.init 1024 0) { words := [0x5#64], size := 3, cap := 64 } 128 1).2
-    = (reallocWith (allocReusable (Arena.init 1024 0) (128 / 8)) { words := [0x5#64], size := 3, cap := 64 } 1).2 := by
-  decide
-
-/-- `realloc` under the oracle hypothesis: failure leaves only a new arena state; success gives a zero-extended copy
-of the first `keep` words in a block of `cap ≥ minCap` bits, `cap` a multiple of 64 and `< 2^32` -/
-theorem realloc_spec (hU : ReallocUnfolds) (a : Arena.State) (b : BitSet) (minCap keep : Nat)
-    (h64 : minCap % 64 = 0) (hpos : 0 < minCap) (hle : minCap ≤ u64) (hmm : a.mallocMax < 2 ^ 29) :
-    (∃ a1, realloc a b minCap keep = (a1, none) ∧ a1.mallocMax = a.mallocMax) ∨
-    (∃ a2 p cap, realloc a b minCap keep =
-        (a2, some (p, b.words.take keep ++ List.replicate (cap / 64 - keep) 0#64, cap)) ∧
-      a2.mallocMax = a.mallocMax ∧ minCap ≤ cap ∧ cap % 64 = 0 ∧ cap < u32) := by
-  rw [hU]
+/-- `realloc`: failure leaves only a new arena state; success gives a zero-extended copy of the first `keep` words
+in a block of `nWords` words, with capacity `cap` (clamped to `0xFFFFFFC0`): `min minCap 0xFFFFFFC0 ≤ cap ≤ 64 * nWords`,
+`cap` a multiple of 64 -/
+theorem realloc_spec (a : Arena.State) (b : BitSet) (minCap keep : Nat)
+    (h64 : minCap % 64 = 0) (hpos : 0 < minCap) (hle : minCap ≤ u64) :
+    (∃ a1, realloc a b minCap keep = (a1, none)) ∨
+    (∃ a2 p nWords cap, realloc a b minCap keep =
+        (a2, some (p, b.words.take keep ++ List.replicate (nWords - keep) 0#64, cap)) ∧
+      min minCap 0xFFFFFFC0 ≤ cap ∧ cap % 64 = 0 ∧ cap ≤ 0xFFFFFFC0 ∧ cap ≤ nWords * 64) := by
+  rw [realloc_unfolds]
   generalize hr : allocReusable a (minCap / 8) = r
   obtain ⟨a1, o, allocated⟩ := r
-  have hm1 : a1.mallocMax = a.mallocMax := Vector.allocReusable_mallocMax' hr
   cases o with
-  | none => exact Or.inl ⟨a1, by simp only [reallocWith], hm1⟩
+  | none => exact Or.inl ⟨a1, by simp only [reallocWith]⟩
   | some p =>
-    obtain ⟨h8, hge, hlt⟩ := allocReusable_bits hr h64 hpos hle hmm
-    have hmod : allocated * 8 % u32 = allocated * 8 := Nat.mod_eq_of_lt hlt
-    have hdiv : allocated * 8 / 64 = allocated / 8 := by omega
+    obtain ⟨h8, hge⟩ := allocReusable_bits hr h64 hpos hle
     cases hd : b.data with
     | none =>
-      refine Or.inr ⟨a1, p, allocated * 8, ?_, hm1, hge, by omega, hlt⟩
-      simp only [reallocWith, hd, hmod, hdiv]
+      refine Or.inr ⟨a1, p, allocated / 8, min (allocated * 8) 0xFFFFFFC0, ?_, by omega, by omega, by omega, by omega⟩
+      simp only [reallocWith, hd]
     | some old =>
-      refine Or.inr ⟨freeReusable a1 old (b.cap / 8), p, allocated * 8, ?_, ?_, hge, by omega, hlt⟩
-      · simp only [reallocWith, hd, hmod, hdiv]
-      · rw [Vector.freeReusable_mallocMax]; exact hm1
+      refine Or.inr ⟨freeReusable a1 old (b.cap / 8), p, allocated / 8, min (allocated * 8) 0xFFFFFFC0, ?_,
+        by omega, by omega, by omega, by omega⟩
+      simp only [reallocWith, hd]
+
+example : (realloc (Arena.init 1024 0) { words := [0x5#64], size := 3, cap := 64 } 128 1).2
+    = some (.managed 0 0, [0x5#64, 0#64], 128) := by decide
 
 /-! ### `_resize`: the reallocating branch -/
 
 theorem alignUp64_mod (x : Nat) : (alignUp x 64 % u64) % 64 = 0 := by
   unfold alignUp u64; omega
 
-/-- wrapped ideal capacity: `kOutOfMemory`, nothing changes -/
-theorem resizeI_oom_wrap (a : Arena.State) (b : BitSet) (n ideal : Nat) (v : Bool)
-    (h1 : ¬ n ≤ b.size) (h2 : n > b.cap) (h3 : alignUp ideal 64 % u64 < n) :
+/-- a size that is not representable (`> 0xFFFFFFC0`): `kOutOfMemory`, nothing changes -/
+theorem resizeI_oom_big (a : Arena.State) (b : BitSet) (n ideal : Nat) (v : Bool)
+    (h1 : ¬ n ≤ b.size) (hbig : n > 0xFFFFFFC0) :
     resizeI a b n ideal v = some (a, b, Err.oom) := by
   unfold resizeI
-  simp only [h1, h2, h3, if_true, if_false]
+  simp only [h1, hbig, if_true, if_false]
+
+/-- wrapped ideal capacity: `kOutOfMemory`, nothing changes -/
+theorem resizeI_oom_wrap (a : Arena.State) (b : BitSet) (n ideal : Nat) (v : Bool)
+    (h1 : ¬ n ≤ b.size) (hbig : ¬ n > 0xFFFFFFC0) (h2 : n > b.cap) (h3 : alignUp ideal 64 % u64 < n) :
+    resizeI a b n ideal v = some (a, b, Err.oom) := by
+  unfold resizeI
+  simp only [h1, hbig, h2, h3, if_true, if_false]
 
 /-- allocator failure: `kOutOfMemory`, the bit set is unchanged, the arena is the allocator's -/
 theorem resizeI_oom_alloc (a a1 : Arena.State) (b : BitSet) (n ideal : Nat) (v : Bool)
-    (h1 : ¬ n ≤ b.size) (h2 : n > b.cap) (h3 : ¬ alignUp ideal 64 % u64 < n)
+    (h1 : ¬ n ≤ b.size) (hbig : ¬ n > 0xFFFFFFC0) (h2 : n > b.cap) (h3 : ¬ alignUp ideal 64 % u64 < n)
     (hre : realloc a b (alignUp ideal 64 % u64) (wordsPerBits b.size) = (a1, none)) :
     resizeI a b n ideal v = some (a1, b, Err.oom) := by
   unfold resizeI
-  simp only [h1, h2, h3, hre, if_true, if_false]
+  simp only [h1, hbig, h2, h3, hre, if_true, if_false]
 
 /-- successful reallocation: `_resize` continues exactly like a `_resize` of the moved bit set -/
 theorem resizeI_moved (a a2 : Arena.State) (b : BitSet) (n ideal : Nat) (v : Bool) (p : Loc) (nw : Words) (cap : Nat)
-    (h1 : ¬ n ≤ b.size) (h2 : n > b.cap) (h3 : ¬ alignUp ideal 64 % u64 < n)
+    (h1 : ¬ n ≤ b.size) (hbig : ¬ n > 0xFFFFFFC0) (h2 : n > b.cap) (h3 : ¬ alignUp ideal 64 % u64 < n)
     (hre : realloc a b (alignUp ideal 64 % u64) (wordsPerBits b.size) = (a2, some (p, nw, cap)))
     (h4 : ¬ n > cap) :
     resizeI a b n ideal v = resizeI a2 { b with data := some p, words := nw, cap := cap } n ideal v := by
   unfold resizeI
-  simp only [h1, h2, h3, h4, hre, if_true, if_false]
+  simp only [h1, hbig, h2, h3, h4, hre, if_true, if_false]
 
-/-- the invariant carried through operation sequences: `WF`, the `uint32_t` capacity, and "no block ⇒ no capacity" -/
+/-- the invariant carried through operation sequences: `WF`, the capacity is a multiple of 64 that fits the
+`uint32_t` field (`≤ 0xFFFFFFC0`), and "no block ⇒ no capacity" -/
 structure Inv (b : BitSet) : Prop where
   wf : WF b
-  cap32 : b.cap < u32
+  cap32 : b.cap ≤ 0xFFFFFFC0
+  cap64 : b.cap % 64 = 0
   nodata : b.data = none → b.cap = 0
 
 theorem inv_empty : Inv {} :=
-  ⟨⟨rfl, Nat.le_refl _, fun j _ h => by simp [wordsPerBits] at h⟩, by decide, fun _ => rfl⟩
+  ⟨⟨Nat.le_refl _, Nat.le_refl _, fun j _ h => by simp [wordsPerBits] at h⟩, by decide, by decide, fun _ => rfl⟩
+
+/-- same capacity and block, still `WF` ⇒ still `Inv` -/
+theorem Inv.of_same {b b' : BitSet} (hI : Inv b) (hwf : WF b') (hc : b'.cap = b.cap) (hd : b'.data = b.data) :
+    Inv b' :=
+  ⟨hwf, by rw [hc]; exact hI.cap32, by rw [hc]; exact hI.cap64, by rw [hc, hd]; exact hI.nodata⟩
 
 /-- the bit set after a successful `realloc` that kept the used words: same bits, still well formed -/
-theorem moved_wf (b : BitSet) (hwf : WF b) (p : Loc) (cap : Nat) (h64 : cap % 64 = 0) (hsz : b.size ≤ cap) :
+theorem moved_wf (b : BitSet) (hwf : WF b) (p : Loc) (nWords cap : Nat) (hcw : cap ≤ nWords * 64)
+    (hsz : b.size ≤ cap) :
     WF { b with data := some p,
                 words := b.words.take (wordsPerBits b.size) ++
-                  List.replicate (cap / 64 - wordsPerBits b.size) 0#64, cap := cap } ∧
+                  List.replicate (nWords - wordsPerBits b.size) 0#64, cap := cap } ∧
     bits { b with data := some p,
                   words := b.words.take (wordsPerBits b.size) ++
-                    List.replicate (cap / 64 - wordsPerBits b.size) 0#64, cap := cap } = bits b := by
+                    List.replicate (nWords - wordsPerBits b.size) 0#64, cap := cap } = bits b := by
   have hwp := wordsPerBits_bounds b.size
   have hl := hwf.words_len
   have hpt : ∀ j, j < 64 * wordsPerBits b.size →
-      bitAt (b.words.take (wordsPerBits b.size) ++ List.replicate (cap / 64 - wordsPerBits b.size) 0#64) j
+      bitAt (b.words.take (wordsPerBits b.size) ++ List.replicate (nWords - wordsPerBits b.size) 0#64) j
         = bitAt b.words j := by
     intro j hj
     rw [bitAt_append, List.length_take, Nat.min_eq_left hl, if_pos hj, bitAt_take, if_pos hj]
@@ -175,47 +171,56 @@ theorem moved_wf (b : BitSet) (hwf : WF b) (p : Loc) (cap : Nat) (h64 : cap % 64
       rw [bitsList_getElem]
       exact (hpt j (by omega)).symm
 
-/-- **`_resize`, every call** (modulo `ReallocUnfolds`).  Never `none`.  Either `kOk`: invariant kept, `size = n`,
+/-- **`_resize`, every call, every arena.**  Never `none`.  Either `kOk`: invariant kept, `size = n`,
 bits = `take n` then `n - size` copies of `v` (and inside the capacity neither the arena nor the capacity change);
-or `kOutOfMemory` (only when `n` exceeds the capacity): the bit set is returned unchanged.  In both cases the
-returned arena has the same `mallocMax`.
-PARTIAL only in that it assumes `ReallocUnfolds` (see KERNEL OBSTACLE). -/
-theorem resizeI_full_partial (hU : ReallocUnfolds) (a : Arena.State) (b : BitSet) (n ideal : Nat) (v : Bool)
-    (hI : Inv b) (hn : n < u32) (hmm : a.mallocMax < 2 ^ 29) :
-    ∃ a' b' e, resizeI a b n ideal v = some (a', b', e) ∧ a'.mallocMax = a.mallocMax ∧
+or `kOutOfMemory` (only when `n` exceeds the capacity; always when `n > 0xFFFFFFC0` and `n > size`): the bit set is
+returned unchanged. -/
+theorem resizeI_full (a : Arena.State) (b : BitSet) (n ideal : Nat) (v : Bool) (hI : Inv b) :
+    ∃ a' b' e, resizeI a b n ideal v = some (a', b', e) ∧
       ((e = Err.ok ∧ Inv b' ∧ b'.size = n ∧
           bits b' = (bits b).take n ++ List.replicate (n - b.size) v ∧ (n ≤ b.cap → a' = a ∧ b'.cap = b.cap)) ∨
        (e = Err.oom ∧ b' = b ∧ b.cap < n)) := by
   have hwf := hI.wf
+  have hc32 := hI.cap32
   by_cases hc : n ≤ b.cap
-  · obtain ⟨b', h1, h2, h3, h4, h5, h6⟩ := resizeI_spec_partial a b n ideal v hwf hc hn
-    exact ⟨a, b', Err.ok, h1, rfl, Or.inl ⟨rfl, ⟨h2, by rw [h4]; exact hI.cap32, by rw [h4, h5]; exact hI.nodata⟩,
-      h3, h6, fun _ => ⟨rfl, h4⟩⟩⟩
+  · obtain ⟨b', h1, h2, h3, h4, h5, h6⟩ := resizeI_spec_partial a b n ideal v hwf hc (by omega)
+    exact ⟨a, b', Err.ok, h1, Or.inl ⟨rfl, hI.of_same h2 h4 h5, h3, h6, fun _ => ⟨rfl, h4⟩⟩⟩
   · have hsz := hwf.size_le
     have h1 : ¬ n ≤ b.size := by omega
     have h2 : n > b.cap := by omega
+    by_cases hbig : n > 0xFFFFFFC0
+    · exact ⟨a, b, Err.oom, resizeI_oom_big a b n ideal v h1 hbig, Or.inr ⟨rfl, rfl, by omega⟩⟩
     by_cases h3 : alignUp ideal 64 % u64 < n
-    · exact ⟨a, b, Err.oom, resizeI_oom_wrap a b n ideal v h1 h2 h3, rfl, Or.inr ⟨rfl, rfl, by omega⟩⟩
+    · exact ⟨a, b, Err.oom, resizeI_oom_wrap a b n ideal v h1 hbig h2 h3, Or.inr ⟨rfl, rfl, by omega⟩⟩
     · have hM64 := alignUp64_mod ideal
       have hMlt : alignUp ideal 64 % u64 ≤ u64 := Nat.le_of_lt (Nat.mod_lt _ (by decide))
-      rcases realloc_spec hU a b (alignUp ideal 64 % u64) (wordsPerBits b.size) hM64 (by omega) hMlt hmm with
-        ⟨a1, hre, hm1⟩ | ⟨a2, p, cap, hre, hm2, hge, hc64, hc32⟩
-      · exact ⟨a1, b, Err.oom, resizeI_oom_alloc a a1 b n ideal v h1 h2 h3 hre, hm1, Or.inr ⟨rfl, rfl, by omega⟩⟩
-      · obtain ⟨hwf1, hbits1⟩ := moved_wf b hwf p cap hc64 (by omega)
-        obtain ⟨b', g1, g2, g3, g4, g5, g6⟩ := resizeI_spec_partial a2 _ n ideal v hwf1 (by simp only; omega) hn
-        refine ⟨a2, b', Err.ok, ?_, hm2, Or.inl ⟨rfl, ⟨g2, ?_, ?_⟩, g3, ?_, fun h => absurd h hc⟩⟩
-        · rw [resizeI_moved a a2 b n ideal v p _ cap h1 h2 h3 hre (by omega)]; exact g1
-        · rw [g4]; exact hc32
+      rcases realloc_spec a b (alignUp ideal 64 % u64) (wordsPerBits b.size) hM64 (by omega) hMlt with
+        ⟨a1, hre⟩ | ⟨a2, p, nWords, cap, hre, hge, hc64, hcmax, hcw⟩
+      · exact ⟨a1, b, Err.oom, resizeI_oom_alloc a a1 b n ideal v h1 hbig h2 h3 hre, Or.inr ⟨rfl, rfl, by omega⟩⟩
+      · have hncap : n ≤ cap := by omega
+        obtain ⟨hwf1, hbits1⟩ := moved_wf b hwf p nWords cap hcw (by omega)
+        obtain ⟨b', g1, g2, g3, g4, g5, g6⟩ :=
+          resizeI_spec_partial a2 _ n ideal v hwf1 (by simp only; omega) (by omega)
+        refine ⟨a2, b', Err.ok, ?_, Or.inl ⟨rfl, ⟨g2, ?_, ?_, ?_⟩, g3, ?_, fun h => absurd h hc⟩⟩
+        · rw [resizeI_moved a a2 b n ideal v p _ cap h1 hbig h2 h3 hre (by omega)]; exact g1
+        · rw [g4]; exact hcmax
+        · rw [g4]; exact hc64
         · rw [g5]; intro h; cases h
         · rw [g6, hbits1]
+
+/-- non-vacuity: growth through a reallocation, and the refusal of an unrepresentable size -/
+example : (resizeI (Arena.init 1024 0) { words := [0x5#64], size := 3, cap := 64, data := some (.dyn 0) } 67 67 true).map
+      (fun r => (r.2.1.words, r.2.1.size, r.2.1.cap, r.2.2))
+    = some ([0xFFFFFFFFFFFFFFFD#64, 0x7#64], 67, 128, Err.ok) := by decide
+example : (resizeI (Arena.init 1024 0) {} (2 ^ 32 + 5) (2 ^ 32 + 5) true).map (·.2) = some ({}, Err.oom) := by decide
 
 /-! ### `append` (with `_append`), `copy_from`, `release` -/
 
 theorem bits_length (b : BitSet) : (bits b).length = b.size := bitsList_length _ _
 
 theorem Inv.size_succ_lt {b : BitSet} (hI : Inv b) : b.size + 1 < u32 := by
-  have := hI.wf.cap_eq; have := hI.wf.size_le; have := hI.cap32
-  unfold u32 at *; omega
+  have := hI.wf.size_le; have := hI.cap32
+  unfold u32; omega
 
 theorem appendSlow_eq (a : Arena.State) (b : BitSet) (v : Bool) (h : b.size + 1 < u32) :
     ∃ ideal, appendSlow a b v = resizeI a b (b.size + 1) ideal v := by
@@ -226,22 +231,20 @@ theorem appendSlow_eq (a : Arena.State) (b : BitSet) (v : Bool) (h : b.size + 1 
   repeat' split
   all_goals exact ⟨_, rfl⟩
 
-/-- **`append`, every call** (fast path and `_append`), modulo `ReallocUnfolds`: never `none`; `kOk` = `snoc`,
+/-- **`append`, every call, every arena** (fast path and `_append`): never `none`; `kOk` = `snoc`,
 `kOutOfMemory` = nothing changed. -/
-theorem append_full_partial (hU : ReallocUnfolds) (a : Arena.State) (b : BitSet) (v : Bool)
-    (hI : Inv b) (hmm : a.mallocMax < 2 ^ 29) :
-    ∃ a' b' e, append a b v = some (a', b', e) ∧ a'.mallocMax = a.mallocMax ∧
+theorem append_full (a : Arena.State) (b : BitSet) (v : Bool) (hI : Inv b) :
+    ∃ a' b' e, append a b v = some (a', b', e) ∧
       ((e = Err.ok ∧ Inv b' ∧ b'.size = b.size + 1 ∧ bits b' = bits b ++ [v]) ∨ (e = Err.oom ∧ b' = b)) := by
   by_cases hlt : b.size < b.cap
   · obtain ⟨b', h1, h2, h3, h4, h5, h6⟩ := append_spec_partial a b v hI.wf hlt
-    exact ⟨a, b', Err.ok, h1, rfl, Or.inl ⟨rfl, ⟨h2, by rw [h4]; exact hI.cap32, by rw [h4, h5]; exact hI.nodata⟩,
-      h3, h6⟩⟩
+    exact ⟨a, b', Err.ok, h1, Or.inl ⟨rfl, hI.of_same h2 h4 h5, h3, h6⟩⟩
   · have hge : b.size ≥ b.cap := by omega
     obtain ⟨ideal, hs⟩ := appendSlow_eq a b v hI.size_succ_lt
     have he : append a b v = resizeI a b (b.size + 1) ideal v := by
       unfold append; simp only [hge, if_true]; exact hs
-    obtain ⟨a', b', e, g1, g2, g3⟩ := resizeI_full_partial hU a b (b.size + 1) ideal v hI hI.size_succ_lt hmm
-    refine ⟨a', b', e, by rw [he]; exact g1, g2, ?_⟩
+    obtain ⟨a', b', e, g1, g3⟩ := resizeI_full a b (b.size + 1) ideal v hI
+    refine ⟨a', b', e, by rw [he]; exact g1, ?_⟩
     rcases g3 with ⟨e1, e2, e3, e4, _⟩ | ⟨e1, e2, _⟩
     · refine Or.inl ⟨e1, e2, e3, ?_⟩
       have hl : (bits b).length ≤ b.size + 1 := by rw [bits_length]; omega
@@ -249,6 +252,11 @@ theorem append_full_partial (hU : ReallocUnfolds) (a : Arena.State) (b : BitSet)
       have : b.size + 1 - b.size = 1 := by omega
       rw [this]; rfl
     · exact Or.inr ⟨e1, e2⟩
+
+/-- non-vacuity: `append` on a full 64-bit set reallocates to 128 bits -/
+example : (append (Arena.init 1024 0) { words := [ones], size := 64, cap := 64, data := some (.dyn 0) } true).map
+      (fun r => (r.2.1.words, r.2.1.size, r.2.1.cap, r.2.2))
+    = some ([ones, 0x1#64], 65, 128, Err.ok) := by decide
 
 theorem copyFrom_oom_alloc (a a1 : Arena.State) (b other : BitSet) (h0 : ¬ other.size = 0) (h2 : other.size > b.cap)
     (hre : realloc a b (alignUp other.size 64) 0 = (a1, none)) :
@@ -276,67 +284,66 @@ theorem copyFrom_moved (a a2 : Arena.State) (b other : BitSet) (p : Loc) (nw : W
   unfold copyFrom
   simp only [h0, h2, h4, hre, if_true, if_false]
 
-theorem moved0_wf (b : BitSet) (p : Loc) (cap : Nat) (h64 : cap % 64 = 0) (hsz : b.size ≤ cap) :
-    WF { b with data := some p, words := b.words.take 0 ++ List.replicate (cap / 64 - 0) 0#64, cap := cap } := by
+theorem moved0_wf (b : BitSet) (p : Loc) (nWords cap : Nat) (hcw : cap ≤ nWords * 64) (hsz : b.size ≤ cap) :
+    WF { b with data := some p, words := b.words.take 0 ++ List.replicate (nWords - 0) 0#64, cap := cap } := by
   refine ⟨?_, hsz, ?_⟩
   · simp only [List.take_zero, List.nil_append, List.length_replicate]; omega
   · intro j _ _
     simp only [List.take_zero, List.nil_append]
     rw [bitAt_replicate]; split <;> simp
 
-/-- **`copy_from`, every call** (modulo `ReallocUnfolds`) -/
-theorem copyFrom_full_partial (hU : ReallocUnfolds) (a : Arena.State) (b other : BitSet)
-    (hI : Inv b) (hO : Inv other) (hmm : a.mallocMax < 2 ^ 29) :
-    ∃ a' b' e, copyFrom a b other = some (a', b', e) ∧ a'.mallocMax = a.mallocMax ∧
+/-- **`copy_from`, every call, every arena** -/
+theorem copyFrom_full (a : Arena.State) (b other : BitSet) (hI : Inv b) (hO : Inv other) :
+    ∃ a' b' e, copyFrom a b other = some (a', b', e) ∧
       ((e = Err.ok ∧ Inv b' ∧ b'.size = other.size ∧ bits b' = bits other) ∨ (e = Err.oom ∧ b' = b)) := by
   by_cases hc : other.size ≤ b.cap
   · obtain ⟨b', h1, h2, h3, h4, h5, h6⟩ := copyFrom_spec_partial a b other hI.wf hO.wf hc
-    exact ⟨a, b', Err.ok, h1, rfl, Or.inl ⟨rfl, ⟨h2, by rw [h4]; exact hI.cap32, by rw [h4, h5]; exact hI.nodata⟩,
-      h3, h6⟩⟩
+    exact ⟨a, b', Err.ok, h1, Or.inl ⟨rfl, hI.of_same h2 h4 h5, h3, h6⟩⟩
   · have hsz := hI.wf.size_le
     have h0 : ¬ other.size = 0 := by omega
     have h2 : other.size > b.cap := by omega
-    have ho32 : other.size < u32 := Nat.lt_of_le_of_lt hO.wf.size_le hO.cap32
+    have ho32 : other.size ≤ 0xFFFFFFC0 := Nat.le_trans hO.wf.size_le hO.cap32
     have hA : alignUp other.size 64 % 64 = 0 ∧ other.size ≤ alignUp other.size 64 ∧
-        alignUp other.size 64 ≤ u64 := by unfold alignUp u64; unfold u32 at ho32; omega
-    rcases realloc_spec hU a b (alignUp other.size 64) 0 hA.1 (by omega) hA.2.2 hmm with
-      ⟨a1, hre, hm1⟩ | ⟨a2, p, cap, hre, hm2, hge, hc64, hc32⟩
-    · exact ⟨a1, b, Err.oom, copyFrom_oom_alloc a a1 b other h0 h2 hre, hm1, Or.inr ⟨rfl, rfl⟩⟩
-    · have hwf1 := moved0_wf b p cap hc64 (by omega)
+        alignUp other.size 64 ≤ u64 := by unfold alignUp u64; omega
+    rcases realloc_spec a b (alignUp other.size 64) 0 hA.1 (by omega) hA.2.2 with
+      ⟨a1, hre⟩ | ⟨a2, p, nWords, cap, hre, hge, hc64, hcmax, hcw⟩
+    · exact ⟨a1, b, Err.oom, copyFrom_oom_alloc a a1 b other h0 h2 hre, Or.inr ⟨rfl, rfl⟩⟩
+    · have hocap : other.size ≤ cap := by omega
+      have hwf1 := moved0_wf b p nWords cap hcw (by omega)
       obtain ⟨b', g1, g2, g3, g4, g5, g6⟩ := copyFrom_spec_partial a2 _ other hwf1 hO.wf (by simp only; omega)
-      refine ⟨a2, b', Err.ok, ?_, hm2, Or.inl ⟨rfl, ⟨g2, ?_, ?_⟩, g3, g6⟩⟩
+      refine ⟨a2, b', Err.ok, ?_, Or.inl ⟨rfl, ⟨g2, ?_, ?_, ?_⟩, g3, g6⟩⟩
       · rw [copyFrom_moved a a2 b other p _ cap h0 h2 hre (by omega)]
         rw [copyFrom_incap a2 _ other h0 (by simp only; omega)] at g1
         exact g1
-      · rw [g4]; exact hc32
+      · rw [g4]; exact hcmax
+      · rw [g4]; exact hc64
       · rw [g5]; intro h; cases h
 
-/-- **`release`**: the block goes back to the arena, the bit set is the empty one again -/
+/-- non-vacuity: `copy_from` into an empty set allocates -/
+example : (copyFrom (Arena.init 1024 0) {} { words := [0x15#64], size := 5, cap := 64 }).map
+      (fun r => (r.2.1.words, r.2.1.size, r.2.1.cap, r.2.2))
+    = some ([0x15#64, 0#64], 5, 128, Err.ok) := by decide
+
+/-- **`release`**: the block goes back to the arena; afterwards the bit set is empty, without block or capacity
+(it is literally `{}` whenever there was a block) -/
 theorem release_spec (a : Arena.State) (b : BitSet) (hI : Inv b) :
-    ∃ a', release a b = (a', {}) ∧ a'.mallocMax = a.mallocMax := by
+    ∃ a' b', release a b = (a', b') ∧ Inv b' ∧ b'.size = 0 ∧ b'.cap = 0 ∧ b'.data = none ∧
+      (b.data ≠ none → b' = {}) := by
   unfold release
   cases hd : b.data with
-  | some p => exact ⟨_, rfl, Vector.freeReusable_mallocMax _ _ _⟩
+  | some p => exact ⟨_, {}, rfl, inv_empty, rfl, rfl, rfl, fun _ => rfl⟩
   | none =>
     have hc := hI.nodata hd
-    have h1 := hI.wf.cap_eq
     have h2 := hI.wf.size_le
-    refine ⟨a, ?_, rfl⟩
-    obtain ⟨d, w, sz, c⟩ := b
-    simp only at hd hc h1 h2
-    subst hd hc
-    have hw : w = [] := List.eq_nil_of_length_eq_zero (by omega)
-    have hs : sz = 0 := by omega
-    subst hw hs
-    rfl
+    exact ⟨a, b, rfl, hI, by omega, hc, hd, fun h => absurd rfl h⟩
 
 example : (release (Arena.init 1024 0) { data := some (.dyn 0), words := [0x5#64], size := 3, cap := 64 }).2 = {} := by
   decide
 
 /-! ### whole sequences: `ArenaBitSet` refines `List Bool` -/
 
-/-- operations on ONE bit set; `env s` lets the environment replace the arena by any state whose allocator refuses
-blocks of `2^29` bytes or more (this is how allocation failures at arbitrary moments are modelled) -/
+/-- operations on ONE bit set; `env s` lets the environment replace the arena by ANY state (this is how allocation
+failures, exhausted arenas, other users of the arena … at arbitrary moments are modelled) -/
 inductive BOp where
   | resize (n : Nat) (v : Bool) | append (v : Bool) | set (i : Nat) (v : Bool)
   | fill (s c : Nat) | clearBits (s c : Nat) | truncate (n : Nat) | clear | fillAll | clearAll | release
@@ -344,7 +351,6 @@ inductive BOp where
 
 /-- the C++ preconditions (assertions) of an operation, on the abstract value -/
 def BOp.pre (l : List Bool) : BOp → Prop
-  | .resize n _ => n < u32
   | .set i _ => i < l.length
   | .fill s c => s + c ≤ l.length
   | .clearBits s c => s + c ≤ l.length
@@ -363,7 +369,7 @@ def modelStep (a : Arena.State) (b : BitSet) : BOp → Option (Arena.State × Bi
   | .clearAll => (Bits.clearAll b).map fun b' => (a, b', Err.ok)
   | .release => match Bits.release a b with
     | (a', b') => some (a', b', Err.ok)
-  | .env s => if s.mallocMax < 2 ^ 29 then some (s, b, Err.ok) else some (a, b, Err.ok)
+  | .env s => some (s, b, Err.ok)
 
 /-- the textbook meaning on `List Bool` -/
 def specStep (l : List Bool) : BOp → List Bool
@@ -382,8 +388,9 @@ def specStep (l : List Bool) : BOp → List Bool
 /-- writes to the words that keep the length and only touch positions `< size` keep the invariant -/
 theorem inv_of_words (b : BitSet) (ws : Words) (hI : Inv b) (hl : ws.length = b.words.length)
     (hout : ∀ j, b.size ≤ j → bitAt ws j = bitAt b.words j) : Inv { b with words := ws } :=
-  ⟨⟨by simp only [hl]; exact hI.wf.cap_eq, hI.wf.size_le,
-    fun j h1 h2 => by simp only at h1 h2 ⊢; rw [hout j h1]; exact hI.wf.tail_zero j h1 h2⟩, hI.cap32, hI.nodata⟩
+  ⟨⟨by simp only [hl]; exact hI.wf.cap_le, hI.wf.size_le,
+    fun j h1 h2 => by simp only at h1 h2 ⊢; rw [hout j h1]; exact hI.wf.tail_zero j h1 h2⟩,
+   hI.cap32, hI.cap64, hI.nodata⟩
 
 theorem bits_getD (b : BitSet) (j : Nat) (h : j < b.size) : (bits b).getD j false = bitAt b.words j := by
   have hl : j < (bits b).length := by rw [bits_length]; exact h
@@ -396,7 +403,7 @@ theorem rangeOp_step (fill : Bool) (b : BitSet) (s c : Nat) (hI : Inv b)
       bits { b with words := ws } =
         (List.range (bits b).length).map fun j => if s ≤ j ∧ j < s + c then fill else (bits b).getD j false := by
   rw [bits_length] at hp
-  have hcap := hI.wf.cap_eq; have hsz := hI.wf.size_le
+  have hcap := hI.wf.cap_le; have hsz := hI.wf.size_le
   obtain ⟨ws, h1, h2, h3⟩ := bitVectorOp_spec fill b.words s c (by omega)
   refine ⟨ws, h1, inv_of_words b ws hI h2 (fun j hj => by rw [h3, if_neg (by omega)]), ?_⟩
   unfold bits
@@ -410,30 +417,29 @@ theorem rangeOp_step (fill : Bool) (b : BitSet) (s c : Nat) (hI : Inv b)
     · rfl
     · exact bits_getD b j hj
 
-/-- one step: never `none`; the oracle property and the invariant are kept; `kOk` = the textbook step,
+/-- one step, from any arena: never `none`; the invariant is kept; `kOk` = the textbook step,
 `kOutOfMemory` = nothing changed -/
-theorem step_refines (hU : ReallocUnfolds) (a : Arena.State) (b : BitSet) (op : BOp) (hI : Inv b)
-    (hmm : a.mallocMax < 2 ^ 29) (hp : op.pre (bits b)) :
-    ∃ a' b' e, modelStep a b op = some (a', b', e) ∧ a'.mallocMax < 2 ^ 29 ∧ Inv b' ∧
+theorem step_refines (a : Arena.State) (b : BitSet) (op : BOp) (hI : Inv b) (hp : op.pre (bits b)) :
+    ∃ a' b' e, modelStep a b op = some (a', b', e) ∧ Inv b' ∧
       ((e = Err.ok ∧ bits b' = specStep (bits b) op) ∨ (e = Err.oom ∧ b' = b)) := by
   cases op with
   | resize n v =>
-    obtain ⟨a', b', e, h1, h2, h3⟩ := resizeI_full_partial hU a b n n v hI hp hmm
-    refine ⟨a', b', e, h1, by rw [h2]; exact hmm, ?_⟩
+    obtain ⟨a', b', e, h1, h3⟩ := resizeI_full a b n n v hI
+    refine ⟨a', b', e, h1, ?_⟩
     rcases h3 with ⟨e1, e2, _, e4, _⟩ | ⟨e1, e2, _⟩
     · exact ⟨e2, Or.inl ⟨e1, by rw [e4]; simp only [specStep, bits_length]⟩⟩
     · exact ⟨by rw [e2]; exact hI, Or.inr ⟨e1, e2⟩⟩
   | append v =>
-    obtain ⟨a', b', e, h1, h2, h3⟩ := append_full_partial hU a b v hI hmm
-    refine ⟨a', b', e, h1, by rw [h2]; exact hmm, ?_⟩
+    obtain ⟨a', b', e, h1, h3⟩ := append_full a b v hI
+    refine ⟨a', b', e, h1, ?_⟩
     rcases h3 with ⟨e1, e2, _, e4⟩ | ⟨e1, e2⟩
     · exact ⟨e2, Or.inl ⟨e1, e4⟩⟩
     · exact ⟨by rw [e2]; exact hI, Or.inr ⟨e1, e2⟩⟩
   | set i v =>
     have hi : i < b.size := by simpa [BOp.pre, bits_length] using hp
-    have hcap := hI.wf.cap_eq; have hsz := hI.wf.size_le
+    have hcap := hI.wf.cap_le; have hsz := hI.wf.size_le
     obtain ⟨ws, g1, g2, g3, g4⟩ := setBit_spec b.words i v (by omega)
-    refine ⟨a, { b with words := ws }, Err.ok, by simp only [modelStep, g1, Option.map_some], hmm,
+    refine ⟨a, { b with words := ws }, Err.ok, by simp only [modelStep, g1, Option.map_some],
       inv_of_words b ws hI g2 (fun j hj => g4 j (by omega)), Or.inl ⟨rfl, ?_⟩⟩
     unfold bits
     apply bitsList_eq
@@ -446,38 +452,33 @@ theorem step_refines (hU : ReallocUnfolds) (a : Arena.State) (b : BitSet) (op : 
       · next h => exact (g4 j (fun e => h e.symm)).symm
   | fill s c =>
     obtain ⟨ws, g1, g2, g3⟩ := rangeOp_step true b s c hI hp
-    exact ⟨a, { b with words := ws }, Err.ok, by simp only [modelStep, bitVectorFill, g1, Option.map_some], hmm, g2,
+    exact ⟨a, { b with words := ws }, Err.ok, by simp only [modelStep, bitVectorFill, g1, Option.map_some], g2,
       Or.inl ⟨rfl, g3⟩⟩
   | clearBits s c =>
     obtain ⟨ws, g1, g2, g3⟩ := rangeOp_step false b s c hI hp
-    exact ⟨a, { b with words := ws }, Err.ok, by simp only [modelStep, bitVectorClear, g1, Option.map_some], hmm, g2,
+    exact ⟨a, { b with words := ws }, Err.ok, by simp only [modelStep, bitVectorClear, g1, Option.map_some], g2,
       Or.inl ⟨rfl, g3⟩⟩
   | truncate n =>
     obtain ⟨b', h1, h2, _, h4, h5, h6⟩ := truncate_spec b n hI.wf
-    exact ⟨a, b', Err.ok, by simp only [modelStep, h1, Option.map_some], hmm,
-      ⟨h2, by rw [h4]; exact hI.cap32, by rw [h4, h5]; exact hI.nodata⟩, Or.inl ⟨rfl, h6⟩⟩
+    exact ⟨a, b', Err.ok, by simp only [modelStep, h1, Option.map_some], hI.of_same h2 h4 h5, Or.inl ⟨rfl, h6⟩⟩
   | clear =>
-    refine ⟨a, Bits.clear b, Err.ok, rfl, hmm, ⟨⟨hI.wf.cap_eq, Nat.zero_le _, ?_⟩, hI.cap32, hI.nodata⟩,
+    refine ⟨a, Bits.clear b, Err.ok, rfl,
+      ⟨⟨hI.wf.cap_le, Nat.zero_le _, ?_⟩, hI.cap32, hI.cap64, hI.nodata⟩,
       Or.inl ⟨rfl, by simp [bits, bitsList, Bits.clear, specStep]⟩⟩
     intro j _ h; simp [Bits.clear, wordsPerBits] at h
   | fillAll =>
     obtain ⟨b', h1, h2, _, h4, h5, h6⟩ := fillAll_spec b hI.wf
-    exact ⟨a, b', Err.ok, by simp only [modelStep, h1, Option.map_some], hmm,
-      ⟨h2, by rw [h4]; exact hI.cap32, by rw [h4, h5]; exact hI.nodata⟩,
+    exact ⟨a, b', Err.ok, by simp only [modelStep, h1, Option.map_some], hI.of_same h2 h4 h5,
       Or.inl ⟨rfl, by rw [h6]; simp only [specStep, bits_length]⟩⟩
   | clearAll =>
     obtain ⟨b', h1, h2, _, h4, h5, h6⟩ := clearAll_spec b hI.wf
-    exact ⟨a, b', Err.ok, by simp only [modelStep, h1, Option.map_some], hmm,
-      ⟨h2, by rw [h4]; exact hI.cap32, by rw [h4, h5]; exact hI.nodata⟩,
+    exact ⟨a, b', Err.ok, by simp only [modelStep, h1, Option.map_some], hI.of_same h2 h4 h5,
       Or.inl ⟨rfl, by rw [h6]; simp only [specStep, bits_length]⟩⟩
   | release =>
-    obtain ⟨a', h1, h2⟩ := release_spec a b hI
-    exact ⟨a', {}, Err.ok, by simp only [modelStep, h1], by rw [h2]; exact hmm, inv_empty,
-      Or.inl ⟨rfl, by simp [bits, bitsList, specStep]⟩⟩
-  | env s =>
-    by_cases h : s.mallocMax < 2 ^ 29
-    · exact ⟨s, b, Err.ok, by simp only [modelStep, h, if_true], h, hI, Or.inl ⟨rfl, rfl⟩⟩
-    · exact ⟨a, b, Err.ok, by simp only [modelStep, h, if_false], hmm, hI, Or.inl ⟨rfl, rfl⟩⟩
+    obtain ⟨a', b', h1, h2, h3, _⟩ := release_spec a b hI
+    exact ⟨a', b', Err.ok, by simp only [modelStep, h1], h2,
+      Or.inl ⟨rfl, by simp [bits, bitsList, specStep, h3]⟩⟩
+  | env s => exact ⟨s, b, Err.ok, rfl, hI, Or.inl ⟨rfl, rfl⟩⟩
 
 /-- outcome of running a sequence: the model and the textbook list side by side -/
 inductive Outcome where
@@ -498,27 +499,24 @@ noncomputable def run (a : Arena.State) (b : BitSet) (l : List Bool) : List BOp 
       | some (a', b', e) => run a' b' (if e = Err.ok then specStep l op else l) ops
     else .badCall
 
-/-- **bitset_refines_bools** (modulo `ReallocUnfolds`): from any reachable state, any operation sequence, any
-interleaving of allocation failures (`env`): the model is never `stuck`, and whenever the run completes the
-invariant holds and the bits are exactly the textbook list.  As this holds for every `ops`, it holds after every
-prefix, i.e. after every step; `step_refines` adds that a `kOutOfMemory` step returns the bit set unchanged. -/
-theorem run_refines (hU : ReallocUnfolds) (ops : List BOp) :
-    ∀ (a : Arena.State) (b : BitSet), Inv b → a.mallocMax < 2 ^ 29 →
+/-- from any state satisfying the invariant, any arena: never `stuck`; on completion invariant + textbook bits -/
+theorem run_refines (ops : List BOp) :
+    ∀ (a : Arena.State) (b : BitSet), Inv b →
       run a b (bits b) ops ≠ .stuck ∧
-      ∀ a' b' l', run a b (bits b) ops = .done a' b' l' → Inv b' ∧ a'.mallocMax < 2 ^ 29 ∧ bits b' = l' := by
+      ∀ a' b' l', run a b (bits b) ops = .done a' b' l' → Inv b' ∧ bits b' = l' := by
   induction ops with
   | nil =>
-    intro a b hI hmm
+    intro a b hI
     refine ⟨by simp [run], ?_⟩
     intro a' b' l' h
     simp only [run, Outcome.done.injEq] at h
     obtain ⟨h1, h2, h3⟩ := h
     subst h1 h2 h3
-    exact ⟨hI, hmm, rfl⟩
+    exact ⟨hI, rfl⟩
   | cons op ops ih =>
-    intro a b hI hmm
+    intro a b hI
     by_cases hp : op.pre (bits b)
-    · obtain ⟨a1, b1, e, h1, h2, h3, h4⟩ := step_refines hU a b op hI hmm hp
+    · obtain ⟨a1, b1, e, h1, h3, h4⟩ := step_refines a b op hI hp
       have hl : (if e = Err.ok then specStep (bits b) op else bits b) = bits b1 := by
         rcases h4 with ⟨e1, e2⟩ | ⟨e1, e2⟩
         · rw [if_pos e1, e2]
@@ -526,26 +524,33 @@ theorem run_refines (hU : ReallocUnfolds) (ops : List BOp) :
       have hrun : run a b (bits b) (op :: ops) = run a1 b1 (bits b1) ops := by
         simp only [run, hp, if_true, h1, hl]
       rw [hrun]
-      exact ih a1 b1 h3 h2
+      exact ih a1 b1 h3
     · have hrun : run a b (bits b) (op :: ops) = .badCall := by simp only [run, hp, if_false]
       rw [hrun]
       exact ⟨by simp, by intro a' b' l' h; cases h⟩
 
-theorem bitset_refines_bools_partial (hU : ReallocUnfolds) (a : Arena.State) (hmm : a.mallocMax < 2 ^ 29)
-    (ops : List BOp) :
+/-- **bitset_refines_bools**: from the empty bit set, for ANY arena, ANY operation sequence and ANY interference of
+the environment with the arena (`env`): the model is never `stuck` (no access outside its block), and whenever the
+run completes the invariant holds and the bits are exactly the textbook list.  As this holds for every `ops`, it
+holds after every prefix, i.e. after every step; `step_refines` adds that a `kOutOfMemory` step returns the bit set
+unchanged. -/
+theorem bitset_refines_bools (a : Arena.State) (ops : List BOp) :
     run a {} [] ops ≠ .stuck ∧
-    ∀ a' b' l', run a {} [] ops = .done a' b' l' → Inv b' ∧ a'.mallocMax < 2 ^ 29 ∧ bits b' = l' :=
-  run_refines hU ops a {} inv_empty hmm
+    ∀ a' b' l', run a {} [] ops = .done a' b' l' → Inv b' ∧ bits b' = l' :=
+  run_refines ops a {} inv_empty
 
-/-- non-vacuity: a concrete sequence on the model (including a reallocation 64 → 128 bits and a `release`) -/
+/-- non-vacuity: a concrete sequence on the model (two reallocations, a refused size, a `release`) -/
 example :
     (do
       let (a1, b1, _) ← modelStep (Arena.init 1024 0) {} (.resize 3 true)
       let (a2, b2, _) ← modelStep a1 b1 (.append false)
       let (a3, b3, _) ← modelStep a2 b2 (.set 1 false)
       let (a4, b4, _) ← modelStep a3 b3 (.resize 130 false)
-      let (_, b5, _) ← modelStep a4 b4 (.fill 126 3)
-      pure (bitsOf b5.words 5, b5.size, getBit b5.words 127)) = some ([true, false, true, false, false], 130, some true) := by
+      let (a5, b5, e5) ← modelStep a4 b4 (.resize (2 ^ 32) true)
+      let (a6, b6, _) ← modelStep a5 b5 (.fill 126 3)
+      let (_, b7, _) ← modelStep a6 b6 .release
+      pure (bitsOf b6.words 5, b6.size, getBit b6.words 127, e5, b7)) =
+      some ([true, false, true, false, false], 130, some true, Err.oom, {}) := by
   decide
 
 end AsmjitVerif.Bits
